@@ -1,6 +1,7 @@
 /-
   C06 — finite functions form a category with coproducts and coequalizers.
   Property theorems only (helpers live in OHVerif/Lemmas).
+  `apply f i` is written `f.table[i]?`; `FinFun.WF f` is `∀ x ∈ f.table, x < f.target`.
 -/
 import OHVerif.Lemmas.FinFun
 import OHVerif.Lemmas.VecBackend
@@ -178,6 +179,8 @@ theorem initial_spec (a : Nat) :
     initial a = ⟨[], a⟩ ∧ (initial a).source = 0 ∧ (initial a).target = a ∧ (initial a).WF := by
   refine ⟨rfl, rfl, rfl, ?_⟩
   intro x hx; simp [initial] at hx
+
+theorem toInitial_spec (f : FinFun) : toInitial f = ⟨[], f.target⟩ := rfl
 
 theorem terminal_spec (a : Nat) :
     (terminal a).target = 1 ∧ (terminal a).source = a ∧
@@ -696,5 +699,175 @@ theorem coequalizer_no_panic (B : Backend) (hB : B.Lawful) (f g : FinFun) (hf : 
       · exact absurd (Or.inr h') h
     obtain ⟨q, hq, _⟩ := coequalizer_spec B hB f g hf hg hs ht
     rw [hq]; simp
+
+/-- hypotheses are satisfiable (Vec backend, `0 ~ 1 ~ 2` glued, `3` alone) -/
+example : ∃ q, coequalizer vecBackend ⟨[0, 1], 4⟩ ⟨[1, 2], 4⟩ = .ok q ∧ q.source = 4 ∧ q.WF :=
+  let ⟨q, h1, h2, h3, _⟩ := coequalizer_spec vecBackend vecBackend_lawful ⟨[0, 1], 4⟩ ⟨[1, 2], 4⟩
+    (by decide) (by decide) rfl rfl
+  ⟨q, h1, h2, h3⟩
+example : coequalizer vecBackend ⟨[0, 1], 4⟩ ⟨[1, 2], 4⟩ = .ok ⟨[0, 0, 0, 1], 2⟩ := by decide
+example : coequalizer vecBackend ⟨[0, 1], 4⟩ ⟨[1, 2], 5⟩ = .none := by decide
+example : coequalizer vecBackend ⟨[0, 1], 4⟩ ⟨[1], 4⟩ = .none := by decide
+
+/-! ## the universal map through a surjection -/
+
+/-- `q` hits every element of its codomain -/
+def Surj (q : FinFun) : Prop := ∀ c : Nat, c < q.target → c ∈ q.table
+
+theorem Surj.nil_target {q : FinFun} (h : Surj q) : q.table = [] → q.target = 0 := by
+  intro hq
+  rcases Nat.eq_zero_or_pos q.target with h0 | h0
+  · exact h0
+  · have := h 0 h0
+    rw [hq] at this
+    simp at this
+
+/-- The universal map through a surjection `q`, on label arrays, for EVERY backend (lawfulness
+    is not even needed: on a surjection no filler survives).
+    (a) `u` constant on the fibres of `q`: the map `v` is returned, `|v| = q.target`, `q ; v = u`;
+    (b) otherwise: `none` (not a panic);  (c) wrong length: `none`. -/
+theorem universal_spec {α : Type} [DecidableEq α] (B : Backend) (q : FinFun) (hq : q.WF)
+    (hsurj : Surj q) (u : List α) :
+    (u.length = q.source → ConstOnFibres q u →
+      ∃ v, coequalizerUniversalArr B q u = .ok v ∧ v.length = q.target ∧
+        (∀ i : Nat, i < q.source → (q.table[i]?.bind fun c => v[c]?) = u[i]?) ∧
+        composeSemi q v = .ok u ∧
+        (∀ x ∈ v, x ∈ u)) ∧
+    (u.length = q.source → ¬ ConstOnFibres q u → coequalizerUniversalArr B q u = .none) ∧
+    (u.length ≠ q.source → coequalizerUniversalArr B q u = .none) := by
+  refine ⟨?_, ?_, ?_⟩
+  · intro hlen hc
+    obtain ⟨v, hv, hvl, hvp, hvg⟩ := universalArr_ok B q u hq hlen hsurj.nil_target hc
+    refine ⟨v, hv, hvl, ?_, ?_, ?_⟩
+    · intro i hi
+      rw [List.getElem?_eq_getElem hi]
+      exact hvp i _ (List.getElem?_eq_getElem hi)
+    · rw [composeSemi_ok q v hq hvl.symm, hvg]
+    · intro x hx
+      obtain ⟨c, hcx⟩ := List.mem_iff_getElem?.mp hx
+      have hcl : c < q.target := by rw [← hvl]; exact (List.getElem?_eq_some_iff.mp hcx).1
+      obtain ⟨i, hi⟩ := List.mem_iff_getElem?.mp (hsurj c hcl)
+      have := hvp i c hi
+      rw [hcx] at this
+      exact List.mem_of_getElem? this.symm
+  · intro hlen hc
+    exact universalArr_none B q u hq hlen hc
+  · intro hlen
+    exact universalArr_len_none B q u hlen
+
+/-- existence of the universal map ⇔ constancy on fibres; never a panic -/
+theorem universal_iff {α : Type} [DecidableEq α] (B : Backend) (q : FinFun) (hq : q.WF)
+    (hsurj : Surj q) (u : List α) (hlen : u.length = q.source) :
+    (coequalizerUniversalArr B q u ≠ .none ↔ ConstOnFibres q u) ∧
+    ((∃ v, coequalizerUniversalArr B q u = .ok v) ↔ ConstOnFibres q u) ∧
+    (∀ s, coequalizerUniversalArr B q u ≠ .panic s) := by
+  obtain ⟨ha, hb, _⟩ := universal_spec B q hq hsurj u
+  by_cases hc : ConstOnFibres q u
+  · obtain ⟨v, hv, _⟩ := ha hlen hc
+    rw [hv]
+    simp [hc]
+  · rw [hb hlen hc]
+    simp [hc]
+
+example : (⟨[0, 1, 0, 1], 2⟩ : FinFun).WF ∧ Surj ⟨[0, 1, 0, 1], 2⟩ ∧
+    ConstOnFibres ⟨[0, 1, 0, 1], 2⟩ ["x", "y", "x", "y"] ∧
+    ¬ ConstOnFibres ⟨[0, 1, 0, 1], 2⟩ ["x", "y", "z", "y"] := by
+  refine ⟨by decide, by unfold Surj; decide, ?_, ?_⟩
+  · intro i j h hi hj
+    have hi' : i < 4 := hi
+    have hj' : j < 4 := hj
+    revert h
+    rcases i with _ | _ | _ | _ | i <;> rcases j with _ | _ | _ | _ | j <;> simp
+  · intro h
+    have := h 0 2 rfl (by decide) (by decide)
+    simp at this
+example : coequalizerUniversalArr vecBackend ⟨[0, 1, 0, 1], 2⟩ ["x", "y", "x", "y"] =
+    .ok ["x", "y"] := by decide
+example : coequalizerUniversalArr vecBackend ⟨[0, 1, 0, 1], 2⟩ ["x", "y", "z", "y"] = .none := by
+  decide
+example : coequalizerUniversalArr vecBackend ⟨[0, 1, 0, 1], 2⟩ ["x", "y", "x"] = .none := by
+  decide
+
+/-- the same for finite functions: the universal map `v : Q → C` with `q ; v = f` exists, is
+    returned and is well-formed iff `f` is constant on the fibres of `q`; otherwise `none` -/
+theorem universalFinFun_spec (B : Backend) (q : FinFun) (hq : q.WF) (hsurj : Surj q) (f : FinFun) :
+    (f.source = q.source → ConstOnFibres q f.table →
+      ∃ v, coequalizerUniversal B q f = .ok v ∧ v.source = q.target ∧ v.target = f.target ∧
+        (∀ i : Nat, i < q.source → (q.table[i]?.bind fun c => v.table[c]?) = f.table[i]?) ∧
+        compose q v = .ok f ∧ (f.WF → v.WF)) ∧
+    (f.source = q.source → ¬ ConstOnFibres q f.table → coequalizerUniversal B q f = .none) ∧
+    (f.source ≠ q.source → coequalizerUniversal B q f = .none) := by
+  obtain ⟨ha, hb, hc⟩ := universal_spec B q hq hsurj f.table
+  refine ⟨?_, ?_, ?_⟩
+  · intro hlen hconst
+    obtain ⟨v, hv, hvl, hvp, hvc, hvm⟩ := ha hlen hconst
+    refine ⟨⟨v, f.target⟩, ?_, hvl, rfl, hvp, ?_, ?_⟩
+    · simp [coequalizerUniversal, hv]
+    · have hg : Prim.gatherP v q.table = f.table := by
+        have := hvc
+        rw [composeSemi_ok q v hq hvl.symm] at this
+        injection this
+      rw [compose_ok q ⟨v, f.target⟩ hq hvl.symm]
+      simp [hg]
+    · intro hf x hx
+      exact hf x (hvm x hx)
+  · intro hlen hconst
+    simp [coequalizerUniversal, hb hlen hconst]
+  · intro hlen
+    simp [coequalizerUniversal, hc hlen]
+
+theorem universalFinFun_iff (B : Backend) (q : FinFun) (hq : q.WF) (hsurj : Surj q) (f : FinFun)
+    (hlen : f.source = q.source) :
+    (coequalizerUniversal B q f ≠ .none ↔ ConstOnFibres q f.table) ∧
+    (∀ s, coequalizerUniversal B q f ≠ .panic s) := by
+  obtain ⟨ha, hb, _⟩ := universalFinFun_spec B q hq hsurj f
+  by_cases hc : ConstOnFibres q f.table
+  · obtain ⟨v, hv, _⟩ := ha hlen hc
+    rw [hv]
+    simp [hc]
+  · rw [hb hlen hc]
+    simp [hc]
+
+example : coequalizerUniversal vecBackend ⟨[0, 1, 0, 1], 2⟩ ⟨[5, 3, 5, 3], 7⟩ = .ok ⟨[5, 3], 7⟩ := by
+  decide
+example : coequalizerUniversal vecBackend ⟨[0, 1, 0, 1], 2⟩ ⟨[5, 3, 4, 3], 7⟩ = .none := by decide
+
+/-- the coequalizer composed with its universal maps: any `h` with `f ; h = g ; h` factors through
+    the coequalizer `q` of `f, g` (all lawful backends) -/
+theorem coequalizer_universal (B : Backend) (hB : B.Lawful) (f g h : FinFun) (hf : f.WF) (hg : g.WF)
+    (hs : f.source = g.source) (ht : f.target = g.target) (hh : h.source = f.target)
+    (heq : ∀ k a b : Nat, f.table[k]? = some a → g.table[k]? = some b → h.table[a]? = h.table[b]?) :
+    ∃ q v, coequalizer B f g = .ok q ∧ coequalizerUniversal B q h = .ok v ∧ compose q v = .ok h := by
+  obtain ⟨q, hq, hqs, hqw, hqo, hqk, _⟩ := coequalizer_spec B hB f g hf hg hs ht
+  have hsurj : Surj q := by
+    intro c hc
+    obtain ⟨i, _, hi⟩ := hqo c hc
+    exact List.mem_of_getElem? hi
+  have key : ∀ i j : Nat, Relation.EqvGen
+      (fun a b => ∃ k : Nat, f.table[k]? = some a ∧ g.table[k]? = some b) i j →
+      h.table[i]? = h.table[j]? := by
+    intro i j e
+    induction e with
+    | rel a b hab => obtain ⟨k, hka, hkb⟩ := hab; exact heq k a b hka hkb
+    | refl a => rfl
+    | symm a b _ ih => exact ih.symm
+    | trans a b c _ _ ih1 ih2 => exact ih1.trans ih2
+  have hconst : ConstOnFibres q h.table := by
+    intro i j hij hi hj
+    rw [hqs] at hi hj
+    exact key i j ((hqk i j hi hj).mp hij)
+  obtain ⟨ha, _, _⟩ := universalFinFun_spec B q hqw hsurj h
+  obtain ⟨v, hv, _, _, _, hcomp, _⟩ := ha (by rw [hh, hqs]) hconst
+  exact ⟨q, v, hq, hv, hcomp⟩
+
+example : ∃ q v, coequalizer vecBackend ⟨[0, 1], 4⟩ ⟨[1, 2], 4⟩ = .ok q ∧
+    coequalizerUniversal vecBackend q ⟨[7, 7, 7, 2], 9⟩ = .ok v ∧
+    compose q v = .ok ⟨[7, 7, 7, 2], 9⟩ :=
+  ⟨⟨[0, 0, 0, 1], 2⟩, ⟨[7, 2], 9⟩, by decide, by decide, by decide⟩
+
+/-- the surjectivity hypothesis of `universal_spec` cannot be dropped: for the empty map into a
+    non-empty codomain the model (like the Rust `expect`) panics instead of returning a map -/
+example : coequalizerUniversalArr vecBackend ⟨[], 5⟩ ([] : List Nat) =
+    .panic "coequalizer_universal:expect" := by decide
 
 end OH.C06
